@@ -40,11 +40,17 @@ def run(chk):
         ops.append("addbase 0 P %s P %s 0 0" % (t, enc_s("s://u@h:8/a/b?q"))); ops.append("removebase 0 P %s P %s 0 0" % (enc_s("s://u@h:8/a/c/d"), t))
     # the same discipline when an allocation fails: every position of a sample of calls (the full enumeration is C14's)
     import c14
-    fcalls = chk.rng.sample(c14.cases(chk, mdl), 120 if q else 1500)
+    allc = c14.cases(chk, mdl)
+    # calls whose paths have dot segments or empty segments reach the allocation sites of dot removal, guard insertion and
+    # trailing-segment replacement: always kept; a random sample of the others
+    special = [c for c in allc if "2e.2e" in c or "2f.2f" in c]
+    others = [c for c in allc if c not in set(special)]
+    fcalls = (special if not q else special[:700]) + chk.rng.sample(others, min(len(others), 120 if q else 1500))
     ffree = lib.run_lines(mdl, [c + " 0 0" for c in fcalls])
     for c, o in zip(fcalls, ffree):
         n = int(o.split(" req=")[1].split()[0]) if " req=" in o else 0
-        for k in range(1, n + 1): ops.append("%s %d %d" % (c, k, k % 2))
+        # one position beyond what the model's run makes: an implementation that makes an extra request is failed there too
+        for k in range(1, n + 3): ops.append("%s %d %d" % (c, k, k % 2))
     # invalid arguments come back as parse-error on both sides
     corr = []
     for fl, cs in (("A", "1"), ("W", "4"), ("A_asan", "1"), ("W_asan", "4")):
